@@ -31,7 +31,11 @@ var mutators = map[string]bool{
 }
 
 func invariants(r *refl.Runner, where string) error {
+	f0 := fp.Of(r.Obj)
 	obs := r.Observers()
+	if g := fp.Of(r.Obj); g != f0 {
+		return fmt.Errorf("%s %s: the argument-free observers (Size, Empty, Values, Keys, String, ToJSON, Peek, ...) altered the container: %s", r.Cfg.Kind, where, fp.Diff(f0, g))
+	}
 	size := obs["Size"].([]any)[0].(int64)
 	empty := obs["Empty"].([]any)[0].(bool)
 	kind := r.Cfg.Kind
